@@ -1872,6 +1872,16 @@ fn star_selectors(rng: &mut Rng) -> [u64; 4] {
         }
         4 => s = [rng.below(65536), rng.below(65536), rng.below(65536), rng.below(65536)],
         5 => s = [0xb, 3, 8, 16], // sysret base below 8
+        6 => {
+            // the bottom of the descriptor table, where `x - 8` / `x - 16` would go below zero:
+            // every small sysret pair, right and wrong distances alike
+            s[0] = rng.below(16) | if rng.chance(70) { 3 } else { 0 };
+            s[1] = rng.below(8) | if rng.chance(70) { 3 } else { 0 };
+            if rng.chance(30) {
+                s[2] = rng.below(16);
+                s[3] = rng.below(24);
+            }
+        }
         _ => {}
     }
     s
